@@ -176,4 +176,130 @@ Section Channel.
         rewrite half_ok. ring.
     Qed.
   End Pauli.
+
+  (* ---- collapse onto a selected group of eigenvectors (projector / measure) --- *)
+  Lemma sum_mul_both n m f g c :
+    sum n f * c * sum m g = sum n (fun i => sum m (fun j => f i * c * g j)).
+  Proof.
+    rewrite <- (sum_mul_r n c f). rewrite <- sum_mul_r.
+    apply sum_ext. intros i _. rewrite <- sum_mul_l. reflexivity.
+  Qed.
+
+  Lemma sum4_swap a b c e (F : nat -> nat -> nat -> nat -> K) :
+    sum a (fun k => sum b (fun l => sum c (fun i => sum e (fun j => F k l i j))))
+    = sum c (fun i => sum e (fun j => sum a (fun k => sum b (fun l => F k l i j)))).
+  Proof.
+    etransitivity.
+    { apply sum_ext. intros k _. apply sum_swap. }          (* k i l j *)
+    rewrite sum_swap.                                        (* i k l j *)
+    apply sum_ext. intros i _.
+    etransitivity.
+    { apply sum_ext. intros k _. apply sum_swap. }          (* i k j l *)
+    apply sum_swap.                                          (* i j k l *)
+  Qed.
+
+  Section Collapse.
+    Variable d : nat.
+    Variable ev : nat -> nat -> K.    (* ev a j  = V[a, j]  (eigenvector j) *)
+    Variable evc : nat -> nat -> K.   (* evc a j = conj(V[a, j]) *)
+    (* the eigenvectors are orthonormal: V^dagger V = 1 *)
+    Hypothesis orth : forall i j, (i < d)%nat -> (j < d)%nat ->
+      sum d (fun a => evc a j * ev a i) = delta i j.
+
+    (* projector(): P = sum_j w_j |v_j><v_j| ; w is the 0/1 indicator of the group
+       selected by the tolerance (the statements hold for arbitrary weights) *)
+    Definition proj (w : nat -> K) (a b : nat) : K := sum d (fun j => w j * ev a j * evc b j).
+
+    Variable rho : nat -> nat -> K.
+    (* <v_i| rho |v_j> ; the diagonal is measure()'s pj *)
+    Definition melt (i j : nat) : K := sum d (fun k => sum d (fun l => evc k i * rho k l * ev l j)).
+    Lemma melt_diag_is_prob j : melt j j = prob_op d ev evc rho j.
+    Proof. reflexivity. Qed.
+
+    (* measure(): P rho P^dagger, un-normalised, with the projector built from w on the
+       left and from v on the right *)
+    Definition collapsed (w v : nat -> K) (a b : nat) : K :=
+      sum d (fun k => sum d (fun l => proj w a k * rho k l * proj v l b)).
+
+    Lemma collapsed_expand w v a b :
+      collapsed w v a b = sum d (fun i => sum d (fun j => w i * v j * ev a i * evc b j * melt i j)).
+    Proof.
+      unfold collapsed, proj.
+      etransitivity.
+      { apply sum_ext. intros k _. apply sum_ext. intros l _. apply sum_mul_both. }
+      rewrite sum4_swap. apply sum_ext. intros i _. apply sum_ext. intros j _.
+      unfold melt. rewrite <- sum_mul_l. apply sum_ext. intros k _.
+      rewrite <- sum_mul_l. apply sum_ext. intros l _. ring.
+    Qed.
+
+    (* the trace of the collapsed operator is the probability mass of the eigenvectors
+       selected on BOTH sides *)
+    Theorem collapse_trace w v :
+      tr d (collapsed w v) = sum d (fun j => w j * v j * prob_op d ev evc rho j).
+    Proof.
+      unfold tr.
+      etransitivity. { apply sum_ext. intros a _. apply collapsed_expand. }
+      rewrite sum_swap. apply sum_ext. intros i Hi.
+      rewrite sum_swap.
+      rewrite (sum_ext d _ (fun j => if Nat.eqb j i then w i * v j * melt i j else k0)).
+      - rewrite sum_delta by exact Hi. rewrite melt_diag_is_prob. reflexivity.
+      - intros j Hj.
+        rewrite (sum_ext d _ (fun a => (w i * v j * melt i j) * (evc a j * ev a i))) by (intros; ring).
+        rewrite sum_mul_l. rewrite (orth i j Hi Hj). unfold delta.
+        destruct (Nat.eqb j i); ring.
+    Qed.
+
+    (* with ONE 0/1 selection s on both sides (s*s = s) the collapsed state has trace
+       sum_{j in group} pj, the number measure() divides by when it sums pj with the
+       same selection: the post-measurement state then has the trace of a state *)
+    Theorem collapse_trace_same_selection s : (forall j, (j < d)%nat -> s j * s j = s j) ->
+      tr d (collapsed s s) = sum d (fun j => s j * prob_op d ev evc rho j).
+    Proof.
+      intros Hs. rewrite collapse_trace. apply sum_ext. intros j Hj. rewrite (Hs j Hj). reflexivity.
+    Qed.
+
+    (* P_w P_v = P_{w v}: projectors on groups multiply by intersecting the groups;
+       in particular P_s is idempotent for a 0/1 selection *)
+    Theorem proj_mul w v a b :
+      sum d (fun c => proj w a c * proj v c b) = proj (fun j => w j * v j) a b.
+    Proof.
+      unfold proj.
+      etransitivity.
+      { apply sum_ext. intros c _.
+        rewrite <- (Kring.(Rmul_1_l) (sum d (fun j => w j * ev a j * evc c j))).
+        rewrite (Kring.(Rmul_comm) k1). apply sum_mul_both. }
+      rewrite sum_swap. apply sum_ext. intros i Hi.
+      rewrite sum_swap.
+      rewrite (sum_ext d _ (fun j => if Nat.eqb j i then w i * v j * ev a i * evc b j else k0)).
+      - rewrite sum_delta by exact Hi. ring.
+      - intros j Hj.
+        rewrite (sum_ext d _ (fun c => (w i * v j * ev a i * evc b j) * (evc c i * ev c j))) by (intros; ring).
+        rewrite sum_mul_l. rewrite (orth j i Hj Hi). unfold delta. rewrite Nat.eqb_sym.
+        destruct (Nat.eqb j i); ring.
+    Qed.
+  End Collapse.
+
+  (* ket branch: || P_w psi ||^2 = tr(P_w |psi><psi| P_w) = sum_j w_j w_j |<v_j|psi>|^2 *)
+  Section CollapseKet.
+    Variable d : nat.
+    Variables ev evc : nat -> nat -> K.
+    Hypothesis orth : forall i j, (i < d)%nat -> (j < d)%nat ->
+      sum d (fun a => evc a j * ev a i) = delta i j.
+    Variables psi psic : nat -> K.
+    Definition proj_ket (w : nat -> K) (a : nat) : K := sum d (fun k => proj d ev evc w a k * psi k).
+    Definition proj_bra (w : nat -> K) (a : nat) : K := sum d (fun l => psic l * proj d ev evc w l a).
+
+    Theorem collapse_ket_norm w v :
+      sum d (fun a => proj_ket w a * proj_bra v a)
+      = sum d (fun j => w j * v j * prob_ket d ev evc psi psic j).
+    Proof.
+      transitivity (sum d (fun j => w j * v j * prob_op d ev evc (fun k l => psi k * psic l) j)).
+      2: { apply sum_ext. intros j _. rewrite prob_ket_is_prob_op. reflexivity. }
+      rewrite <- (collapse_trace d ev evc orth (fun k l => psi k * psic l) w v).
+      unfold tr. apply sum_ext. intros a _. unfold proj_ket, proj_bra, collapsed.
+      rewrite <- (Kring.(Rmul_1_l) (sum d (fun k => proj d ev evc w a k * psi k))).
+      rewrite (Kring.(Rmul_comm) k1). rewrite sum_mul_both.
+      apply sum_ext. intros k _. apply sum_ext. intros l _. ring.
+    Qed.
+  End CollapseKet.
 End Channel.
